@@ -12,7 +12,7 @@ use mls_rs::external_client::ExternalClient;
 use mls_rs::group::proposal::{CustomProposal, ProposalType};
 use mls_rs::group::ExportedTree;
 use mls_rs::mls_rs_codec::MlsEncode;
-use mls_rs::MlsMessage;
+use mls_rs::{Extension, ExtensionList, MlsMessage};
 
 const P: &str = "C03";
 
@@ -27,6 +27,8 @@ pub struct Obs {
     pub attempts: u64,
     pre_tree: Option<Vec<u8>>,
     lite_receiver_removed: bool,
+    /// (epoch, encryption secret = root of the secret tree, leaf count), recorded while the new epoch's tree is untouched
+    enc_secret: Option<(u64, Vec<u8>, u32)>,
     /// last genuine public message of each kind, for field splicing: (kind, bytes)
     last_public: Vec<(&'static str, Vec<u8>)>,
     /// genuine handshake messages of earlier epochs that were never delivered to anyone (made by a discarded clone of a
@@ -132,9 +134,54 @@ impl Obs {
         }
     }
 
+    /// Insider, private messages: the padding of a PrivateMessage is neither signed nor structured, so a member can put
+    /// anything there; the receiver must insist on zeros. Control: the same message with more zero padding is accepted.
+    fn repadded(&mut self, w: &World, receivers: &[usize], genuine: &[u8], kind: &'static str) -> CaseResult {
+        let Some((epoch, enc, n_leaves)) = self.enc_secret.clone() else { return Ok(()) };
+        let Some(r0) = receivers.first().copied() else { return Ok(()) };
+        if MlsMessage::from_bytes(genuine).ok().and_then(|m| m.epoch()) != Some(epoch) || w.parties[r0].g().current_epoch() != epoch {
+            return Ok(());
+        }
+        let keys = w.parties[r0].g().verif_epoch_keys();
+        let csp = w.parties[r0].suite_provider(w.cfg.suite);
+        let t = w.now();
+        let k = 1 + self.rng.below(40) as usize;
+        let Some(control) = crate::forge::repad_private_message(w.cfg.suite, &csp, genuine, &keys.sender_data_secret, &enc, n_leaves, &vec![0u8; k]) else {
+            self.ev.class("repadding_not_possible");
+            return Ok(());
+        };
+        let mut clone = w.parties[r0].g().clone();
+        match guard(|| clone.process_incoming_message_with_time(MlsMessage::from_bytes(&control)?, t).map(|_| ())) {
+            Ok(()) => self.ev.class("repadded_control_accepted"),
+            Err(e) if e.is_panic() => return Err(panic_failure(P, "process_incoming_message(re-padded message)", &e)),
+            Err(e) => {
+                // the forger does not reproduce this message (e.g. the receiver has consumed the key already)
+                self.ev.class(&format!("repadded_control_failed:{}", e.class()));
+                return Ok(());
+            }
+        }
+        for variant in 0..3 {
+            let mut pad = vec![0u8; k];
+            let (name, pos) = match variant {
+                0 => ("last_byte", k - 1),
+                1 => ("first_byte", 0),
+                _ => ("random_byte", self.rng.below(k as u64) as usize),
+            };
+            pad[pos] = 1 + self.rng.below(255) as u8;
+            let Some(bytes) = crate::forge::repad_private_message(w.cfg.suite, &csp, genuine, &keys.sender_data_secret, &enc, n_leaves, &pad) else { continue };
+            let mu = Mutation { bytes: bytes.clone(), label: format!("insider: {k} bytes of padding appended, byte {pos} of them non-zero ({name}), sealed again under the message key"), field: format!("insider_nonzero_padding_{name}") };
+            self.must_reject(w, r0, &bytes, kind, &mu)?;
+            self.ev.class(&format!("insider_forgeries:nonzero_padding:{name}"));
+        }
+        Ok(())
+    }
+
     fn battery(&mut self, w: &World, receivers: &[usize], genuine: &[u8], kind: &'static str) -> CaseResult {
         if receivers.is_empty() {
             return Ok(());
+        }
+        if MlsMessage::from_bytes(genuine).map(|x| x.wire_format() == mls_rs::WireFormat::PrivateMessage).unwrap_or(false) {
+            self.repadded(w, receivers, genuine, kind)?;
         }
         for i in 0..self.per_message {
             let mu = if i % 5 == 4 {
@@ -700,9 +747,102 @@ impl Obs {
         // the committer's leaf without a parent hash / with a prefix of it: the new path nodes hang in the air
         plans.push(("consistent_commit_leaf_without_parent_hash".into(), Tamper { leaf_parent_hash_prefix: Some(0), ..Default::default() }, true));
         plans.push(("consistent_commit_leaf_with_parent_hash_prefix".into(), Tamper { leaf_parent_hash_prefix: Some(1 + self.rng.below(31) as usize), ..Default::default() }, true));
+        // Proposal lists that break the set rules of RFC 9420 12.2 while everything else is consistent. Two
+        // GroupContextExtensions proposals in one commit: both by value, or one by reference (a proposal of the committer
+        // that the receiver has cached) and one by value. Controls: each of the two alone is accepted and leads to the
+        // predicted epoch.
+        let mut gce_receiver: Option<VGroup> = None;
+        {
+            use mls_rs::extension::ExtensionType;
+            let mk = |d: u8| {
+                let mut e = ExtensionList::new();
+                e.set(Extension::new(ExtensionType::from(EXT_TYPE), vec![d, 0x5e]));
+                e
+            };
+            let (ext_a, ext_b) = (mk(0xA1), mk(0xB2));
+            let enc = |e: &ExtensionList| e.mls_encode_to_vec().expect("ext");
+            let by_value = |e: &ExtensionList| {
+                let mut v = vec![1u8, 0, 7];
+                v.extend_from_slice(&enc(e));
+                v
+            };
+            // the committer's by-reference proposal of B, cached by (a copy of) the receiver
+            let mut sender_copy = w.parties[sender].g().clone();
+            sender_copy.clear_pending_commit();
+            let mut recv = w.parties[receiver].g().clone();
+            let by_ref: Option<Vec<u8>> = guard(|| sender_copy.propose_group_context_extensions(ext_b.clone(), vec![])).ok().and_then(|m| {
+                match guard(|| recv.process_incoming_message_with_time(m, t)) {
+                    Ok(mls_rs::group::ReceivedMessage::Proposal(d)) => {
+                        let mut v = vec![2u8];
+                        v.extend_from_slice(&d.proposal_ref.mls_encode_to_vec().ok()?);
+                        Some(v)
+                    }
+                    _ => None,
+                }
+            });
+            let mut control_ok = true;
+            let mut controls: Vec<(&str, Vec<u8>, &ExtensionList)> = vec![("gce_by_value_alone", by_value(&ext_a), &ext_a)];
+            if let Some(r) = &by_ref {
+                controls.push(("gce_by_reference_alone", r.clone(), &ext_b));
+            }
+            for (name, props, ext) in controls {
+                let tamper = Tamper { proposals: Some(props), context_extensions: Some(enc(ext)), ..Default::default() };
+                let Some(f) = forge(&input, &tamper) else {
+                    control_ok = false;
+                    break;
+                };
+                let mut c = recv.clone();
+                match guard(|| c.process_incoming_message_with_time(MlsMessage::from_bytes(&f.bytes)?, t)).map(|_| ()) {
+                    Ok(()) if c.epoch_authenticator().map(|a| a.to_vec()).unwrap_or_default() == f.epoch_authenticator && c.context().extensions == *ext => {
+                        self.ev.class(&format!("full_forger_control:{name}:accepted_and_predicted"))
+                    }
+                    Ok(()) => return Err(fail("hand_built_commit_accepted_with_unexpected_result", format!("receiver {receiver}: {name}"))),
+                    Err(e) if e.is_panic() => return Err(panic_failure(P, "process_incoming_message(hand-built commit with GroupContextExtensions)", &e)),
+                    Err(e) => {
+                        self.ev.class(&format!("full_forger_control_failed:{name}:{}", e.class()));
+                        control_ok = false;
+                    }
+                }
+            }
+            if control_ok {
+                let mut two = by_value(&ext_a);
+                two.extend_from_slice(&by_value(&ext_b));
+                plans.push(("two_group_context_extensions_by_value".into(), Tamper { proposals: Some(two), context_extensions: Some(enc(&ext_b)), ..Default::default() }, true));
+                if let Some(r) = &by_ref {
+                    for (which, ext) in [("value_wins", &ext_a), ("reference_wins", &ext_b)] {
+                        let mut l = r.clone();
+                        l.extend_from_slice(&by_value(&ext_a));
+                        plans.push((format!("group_context_extensions_by_reference_and_by_value:{which}"), Tamper { proposals: Some(l), context_extensions: Some(enc(ext)), ..Default::default() }, true));
+                    }
+                    gce_receiver = Some(recv);
+                }
+            }
+        }
         for (name, tamper, must) in plans {
             let Some(f) = forge(&input, &tamper) else { continue };
             self.ev.class(&format!("insider_forgeries:full:{}", name.split(":position").next().unwrap_or(&name)));
+            if name.starts_with("group_context_extensions_by_reference") {
+                // delivered to the copy of the receiver that holds the referenced proposal
+                if let Some(recv) = &gce_receiver {
+                    let mut c = recv.clone();
+                    self.attempts += 1;
+                    self.ev.eval(1);
+                    match guard(|| c.process_incoming_message_with_time(MlsMessage::from_bytes(&f.bytes)?, t)).map(|_| ()) {
+                        Err(e) if e.is_panic() => return Err(panic_failure(P, "process_incoming_message(hand-built commit, two GroupContextExtensions)", &e)),
+                        Err(e) => {
+                            self.ev.class(&format!("rejected:public_commit:insider_full_{}:{}", name.split(':').next().unwrap_or(&name), e.class()));
+                            self.ev.nontrivial(&("gce", &name, receiver, w.epoch));
+                        }
+                        Ok(()) => {
+                            return Err(fail(
+                                &format!("modified_public_commit_accepted|insider_full_{}", name.split(':').next().unwrap_or(&name)),
+                                format!("member {receiver} accepted a hand-built commit that covers one GroupContextExtensions proposal by reference and carries another by value ({name}); its context now has {:?}", c.context().extensions),
+                            ))
+                        }
+                    }
+                }
+                continue;
+            }
             let mu = Mutation { bytes: f.bytes.clone(), label: format!("insider (hand-built commit): {name}, receiver leaf {rleaf} entry {pos} of {n}, sender leaf {leaf}, filtered direct path {:?}", honest.fdp), field: format!("insider_full_{}", name.split(':').next().unwrap_or(&name)) };
             if must {
                 self.must_reject(w, receiver, &f.bytes, "public_commit", &mu)?;
@@ -1037,6 +1177,16 @@ impl Observer for Obs {
     }
 
     fn after_commit(&mut self, w: &mut World, info: &CommitInfo, _st: &HistoryStats) -> CaseResult {
+        // the new epoch's secret tree, while some member still has its root
+        self.enc_secret = None;
+        for m in w.members() {
+            let k = w.parties[m].g().verif_epoch_keys();
+            let root = k.secret_tree_leaf_count.saturating_sub(1);
+            if let Some((_, v)) = k.secret_tree_nodes.iter().find(|(n, _)| *n == root) {
+                self.enc_secret = Some((w.epoch, v.clone(), k.secret_tree_leaf_count));
+                break;
+            }
+        }
         if !info.joined.is_empty() && !info.external {
             self.welcome_battery(w, info)?;
         }
@@ -1104,12 +1254,12 @@ pub fn run(ctx: &Ctx) -> ! {
          Insider mutators (membership key from the hook, MAC recomputed by the reference model, rebuilt message proven identical for the unmodified case): re-attribution to another member's leaf, wrong and stale \
          confirmation tag, content or authenticated_data changed with a fresh membership tag; structural forgeries by the committer itself (leaf and content re-signed with its keys, parent hash recomputed over the \
          modified path by the independent tree model, MAC recomputed; two positive controls prove the forger produces acceptable messages): every shorter update path, a longer one, a wrong / empty / truncated parent hash, another \
-         member's HPKE or signature key in the new leaf, the unchanged HPKE key, a leaf signed for another index; and, without the tree model, for every public commit (also tree-changing ones, also for a receiver that the commit removes): one path node too many / too few, a broken leaf signature, the committer's current leaf in place of the path leaf, content re-signed and re-MACed. Out-of-band trees are bit-flipped, truncated and padded with blank nodes (vector length corrected). Receivers: clones of members, the joiner's client (Welcome, tree), an external committer and an observer (GroupInfo). \
+         member's HPKE or signature key in the new leaf, the unchanged HPKE key, a leaf signed for another index; and, without the tree model, for every public commit (also tree-changing ones, also for a receiver that the commit removes): one path node too many / too few, a broken leaf signature, the committer's current leaf in place of the path leaf, content re-signed and re-MACed. Hand-built commits (forge.rs) also come with no / a truncated parent hash in the committer's leaf and with proposal lists that break the set rules (two GroupContextExtensions: by value twice, or by reference + by value; each alone accepted as control). PrivateMessages (application, proposal, commit) are opened with the reference key derivations, get non-zero padding and are sealed again under the same key (zero padding accepted as control). Out-of-band trees are bit-flipped, truncated and padded with blank nodes (vector length corrected). Receivers: clones of members, the joiner's client (Welcome, tree), an external committer and an observer (GroupInfo). \
          Insider forgeries of a Welcome (GroupInfo opened with the joiner secret, changed, re-sealed for the joiner; unchanged re-sealed control must be accepted): signature bit, signer index, re-signed wrong confirmation tag, re-signed wrong epoch. Cross-epoch replay: GroupInfo messages (with and without tree) and a proposal and a commit made by a discarded clone of a member in epoch n (so no receiver has seen them or consumed their keys) are delivered to every other member in epochs n+1 and n+2. Oracle: never Ok, never a panic; parts of a Welcome addressed to other joiners are exempt; genuine copies are delivered afterwards and must report the true sender, payload and authenticated data. \
          Non-trivial = rejection by an authentication / validation check (error class other than decode, group id, version, epoch); distinct by (message kind, mutation, receiver, epoch).",
         &hp,
         spec,
-        &|case, ev| Obs { ev, rng: SplitMix::new(((case.c(7) as u64) << 16) | case.c(8) as u64, 3), per_message, attempts: 0, pre_tree: None, lite_receiver_removed: false, last_public: vec![], withheld: vec![] },
+        &|case, ev| Obs { ev, rng: SplitMix::new(((case.c(7) as u64) << 16) | case.c(8) as u64, 3), per_message, attempts: 0, pre_tree: None, lite_receiver_removed: false, enc_secret: None, last_public: vec![], withheld: vec![] },
         &|_, o| {
             o.ev.class_n("mutation_attempts", o.attempts);
             false
